@@ -173,6 +173,17 @@ def build(reg, src):
            ensures=[esc_post])
 
     from replay import c20 as rp
+    # (bounded, labelled) every JSON kind of websocket message reaches the handler BODY exactly once through klong['.ws.m'](conn, msg)
+    def ws_kinds(ctx):
+        from pyvc.run import run_replay
+        r = run_replay(lambda inputs, name: dict(rows=rp.ws_message_kinds()), {}, 'ws-message-kinds', timeout_s=60)
+        rows = r.get('rows') if isinstance(r, dict) else None
+        if not rows:
+            return [dict(name='ws-message-kinds(bounded)::harness', ok=False, undecided=True, backend='native-execution (bounded)', detail=str(r)[:200])]
+        return [dict(name=f"ws-message-kinds(bounded)::{k}", ok=bool(ok), backend='native-execution (bounded)', detail=d, confirmed=not ok) for k, ok, d in rows]
+    ws_kinds.__name__ = 'ws-message-kinds'
+    reg.extra_checks.append(ws_kinds)
+    reg.bounded.append(dict(check='ws-message-kinds', tool='native execution of klong[\'.ws.m\'](conn, msg)', bound='13 JSON kinds of message', result='see rows'))
     reg.replays.append((r'.', rp.replay_web))
 
 
